@@ -115,10 +115,11 @@ func NewVM(
 func hostcall(self *VM, function string, span errors.Span, args []*value.Value) (*value.Value, *value.VmInterrupt) {
 	switch function {
 	case "__internal_list_push":
-		elem := args[0]
+		// Store a copy: the element must not alias the cell the value came from (e.g. a variable)
+		elem := *args[0]
 		list := (*args[1]).(value.ValueList)
 
-		(*list.Values) = append((*list.Values), elem)
+		(*list.Values) = append((*list.Values), &elem)
 		return args[1], nil
 	case "@trigger":
 		callback := (*args[0]).(value.ValueString).Inner
